@@ -60,19 +60,31 @@ def run(ctx):
         N = G.order()
         rho = ctx.rng.choice([0.05, 0.1, 0.25])
         tau, gamma = ctx.rng.choice([(0.4, 1.0), (1.0, 0.5), (2.0, 1.0)])
-        rep = dict(entry="SIR-hierarchy", graph=dict(kind=kind, n=N, seed=seed), rho=rho, tau=tau, gamma=gamma)
-        ctx.case(rep, nontrivial=True, sample=rep)
-        names = ["EBCM_from_graph", "SIR_compact_pairwise_from_graph", "SIR_super_compact_pairwise_from_graph",
-                 "SIR_compact_effective_degree_from_graph"]
-        if max(dict(G.degree()).values()) <= 12:
-            names.append("SIR_effective_degree_from_graph")
-        res = []
-        for nm in names:
-            try:
-                res.append((nm, curves(nm, G, rho, tau, gamma, 8.0, 17)))
-            except Exception as e:
-                ctx.violation("SIR hierarchy: %s raised %s" % (nm, type(e).__name__), dict(rep, model=nm))
-        compare(ctx, rep, "SIR-hierarchy", res, N)
+        # stage 0: the graph as built; stage 1 (every other case): the SAME graph object after in-place rewiring that
+        # changes the degree distribution but not the node / edge counts — the models must describe the graph as it is
+        for stage in range(2 if k % 2 == 0 else 1):
+            if stage == 1:
+                es = list(G.edges())
+                for (u, v) in ctx.rng.sample(es, max(1, len(es) // 8)):
+                    hub = max(G, key=lambda x: G.degree(x))
+                    cand = [w for w in (u, v) if w != hub and not G.has_edge(hub, w)]
+                    if cand and G.has_edge(u, v):
+                        G.remove_edge(u, v)
+                        G.add_edge(hub, cand[0])
+            rep = dict(entry="SIR-hierarchy", graph=dict(kind=kind, n=N, seed=seed), rho=rho, tau=tau, gamma=gamma, inplace_stage=stage)
+            ctx.case(rep, nontrivial=True, sample=rep)
+            ctx.count("SIR-hierarchy:stage%d" % stage)
+            names = ["EBCM_from_graph", "SIR_compact_pairwise_from_graph", "SIR_super_compact_pairwise_from_graph",
+                     "SIR_compact_effective_degree_from_graph"]
+            if max(dict(G.degree()).values()) <= 12:
+                names.append("SIR_effective_degree_from_graph")
+            res = []
+            for nm in names:
+                try:
+                    res.append((nm, curves(nm, G, rho, tau, gamma, 8.0, 17)))
+                except Exception as e:
+                    ctx.violation("SIR hierarchy: %s raised %s" % (nm, type(e).__name__), dict(rep, model=nm))
+            compare(ctx, rep, "SIR-hierarchy", res, N)
         # pref-mix with uncorrelated mixing (direct functions)
         Pk = EoN.get_Pk(G)
         if 0 in Pk:
